@@ -131,6 +131,37 @@ func c08(a *vlib.Args) {
 				continue
 			}
 		}
+		// capacity sweep: the value is built on a 0xAA-dirty buffer of EVERY initial capacity 0..len+1, so that each
+		// of the writer's Grow calls is, for some capacity, the one that reallocates (a slice kept across a Grow
+		// then points into the abandoned array)
+		if len(ref) <= 40 && (a.Replay == "" || want.Mode == "capacity-sweep") {
+			for cp := 0; cp <= len(ref)+1; cp++ {
+				r.Evaluations++
+				var got []byte
+				var err error
+				p, stack := vlib.Catch(func() {
+					raw := make([]byte, cp)
+					for i := range raw {
+						raw[i] = 0xAA
+					}
+					sweep := buffer.NewBytes(raw[:0])
+					explicit.Reset(sweep)
+					got, err = buildOn(explicit, c.Node)
+				})
+				switch {
+				case p != nil:
+					r.Violate(fmt.Sprintf("panic mode=capacity-sweep: %v", p), fmt.Sprintf("%s tree=%s capacity=%d\n%s", c.Name, c.Node, cp, stack), rep("capacity-sweep"))
+				case err != nil:
+					r.Violate(fmt.Sprintf("build error mode=capacity-sweep: %s", sigOf(err)), fmt.Sprintf("%s tree=%s capacity=%d: %v", c.Name, c.Node, cp, err), rep("capacity-sweep"))
+				case !bytes.Equal(got, ref):
+					r.Violate(fmt.Sprintf("bytes differ from the reference encoding, mode=capacity-sweep kind=%s", diffKind(got, ref, c.Node)),
+						fmt.Sprintf("%s tree=%s dirty buffer of capacity %d\n library  =%s\n reference=%s", c.Name, c.Node, cp, vlib.Hex(clip(got, 48)), vlib.Hex(clip(ref, 48))), rep("capacity-sweep"))
+				default:
+					continue
+				}
+				break
+			}
+		}
 		// reference decoder reads the library's bytes
 		var lib []byte
 		var err error
@@ -187,7 +218,7 @@ func c08(a *vlib.Args) {
 	r.Bounds["space_total_trees"] = total
 	r.Bounds["golden_cases_compared"] = goldenHits
 	r.Traces = goldenHits
-	r.Rule = fmt.Sprintf("the C01 tree space (<=%d nodes over the boundary alphabet, every tag order, families F1-F6), each encoded in 4 writer histories (fresh, Reset over a 0xAA-dirty buffer, pooled writer after a larger unrelated message, after a failed program) and compared byte-for-byte with an independent reference encoder; reference decoder on library bytes; library reader on reference bytes; sha256 of every quick-tier case compared with the golden corpus frozen at the pinned commit", maxNodes)
+	r.Rule = fmt.Sprintf("the C01 tree space (<=%d nodes over the boundary alphabet, every tag order, families F1-F6), each encoded in 4 writer histories (fresh, Reset over a 0xAA-dirty buffer, pooled writer after a larger unrelated message, after a failed program) and, for encodings <=40 bytes, on a 0xAA-dirty buffer of every initial capacity 0..len+1 (every Grow call is the reallocating one for some capacity) and compared byte-for-byte with an independent reference encoder; reference decoder on library bytes; library reader on reference bytes; sha256 of every quick-tier case compared with the golden corpus frozen at the pinned commit", maxNodes)
 	r.Write(a)
 }
 
